@@ -7,6 +7,7 @@ import (
 
 	"github.com/cedar-policy/cedar-go/internal/consts"
 	"github.com/cedar-policy/cedar-go/internal/extensions"
+	"github.com/cedar-policy/cedar-go/types"
 	"github.com/cedar-policy/cedar-go/x/exp/ast"
 )
 
@@ -164,6 +165,16 @@ func (n NodeTypeNot) marshalCedar(buf *bytes.Buffer) {
 
 func (n NodeTypeNegate) marshalCedar(buf *bytes.Buffer) {
 	buf.WriteRune('-')
+	// "-5" is read back as the literal -5, not as the negation of 5 (and "-0" as the literal 0), so a
+	// non-negative literal operand keeps its own parentheses
+	if v, ok := n.NodeTypeNegate.Arg.(ast.NodeValue); ok {
+		if l, ok := v.Value.(types.Long); ok && l >= 0 {
+			buf.WriteRune('(')
+			buf.Write(l.MarshalCedar())
+			buf.WriteRune(')')
+			return
+		}
+	}
 	marshalChildNode(n.precedenceLevel(), n.NodeTypeNegate.Arg, buf)
 }
 
